@@ -363,33 +363,40 @@ def history_indexes(ctx, impl, n_hist):
     """Well-formed real indexes reached by the C06 history generator (every intermediate and final state whose
     values are unsigned - INDX stores unsigned integers only), deduplicated; some re-labelled (value -> value * M,
     built with the real constructor) so that the index word is 2, 4 or 8 bytes wide."""
-    from .. import iindex_hist as ih
-    himpl = ih.Impl(impl.catii)
     rng = ctx.rng
     seen = {}
+    try:
+        from .. import iindex_hist as ih
+        himpl = ih.Impl(impl.catii)
+    except Exception as e:  # noqa
+        HELPER_PROBLEMS.append("history generator unavailable: %s: %s" % (type(e).__name__, e))
+        return []
     for _ in range(n_hist):
         try:
             h = ih.run_history(himpl, rng, 6, dims3=(rng.random() < 0.25), with_eq=False)
-        except Exception:   # noqa  the history machinery objecting is C06/C07's business
+            cands = [("init:" + h.init["via"], ih.build(himpl, h.init["spec"]))]
+            for st in h.steps:
+                if not st.raised and not st.problems and isinstance(st.result, himpl.iindex):
+                    cands.append(("history:" + str(st.op.get("op") if isinstance(st.op, dict) else "op"), st.result))
+        except Exception as e:   # noqa  the history machinery objecting is C06/C07's business
+            if len(HELPER_PROBLEMS) < 3:
+                HELPER_PROBLEMS.append("history generator raised %s: %s" % (type(e).__name__, str(e)[:200]))
             continue
-        cands = []
-        try:
-            cands.append(("init:" + h.init["via"], ih.build(himpl, h.init["spec"])))
-        except Exception:  # noqa
-            pass
-        for st in h.steps:
-            if not st.raised and not st.problems and isinstance(st.result, himpl.iindex):
-                cands.append(("history:" + str(st.op.get("op") if isinstance(st.op, dict) else "op"), st.result))
         for via, idx in cands:
-            sp = ih.spec_of(idx)
-            if sp["common"] < 0 or any(k[0] < 0 for k, _ in sp["entries"]):
-                continue
-            m = rng.choice(SCALES)
-            if m != 1:
-                sp = {"entries": [[[k[0] * m] + k[1:], rows] for k, rows in sp["entries"]], "common": sp["common"] * m, "shape": sp["shape"]}
-                idx = ih.build(himpl, sp)
-                via += "*%d" % m
-            if ih.py_wf(idx):
+            try:
+                sp = ih.spec_of(idx)
+                if sp["common"] < 0 or any(k[0] < 0 for k, _ in sp["entries"]):
+                    continue
+                m = rng.choice(SCALES)
+                if m != 1:
+                    sp = {"entries": [[[k[0] * m] + k[1:], rows] for k, rows in sp["entries"]], "common": sp["common"] * m, "shape": sp["shape"]}
+                    idx = ih.build(himpl, sp)
+                    via += "*%d" % m
+                if ih.py_wf(idx):
+                    continue
+            except Exception as e:  # noqa
+                if len(HELPER_PROBLEMS) < 3:
+                    HELPER_PROBLEMS.append("iindex_hist helper failed: %s: %s" % (type(e).__name__, str(e)[:200]))
                 continue
             key = json.dumps(sp)
             if key not in seen:
@@ -399,7 +406,6 @@ def history_indexes(ctx, impl, n_hist):
 
 def oracle_index(impl, idx, sp, o):
     """Property C10, second sentence, on real objects: the loaded parts rebuild an index equal to the one saved that validates."""
-    from .. import iindex_hist as ih
     entries = [(tuple(k), rows) for k, rows in sp["entries"]]
     why = oracle_roundtrip(entries, sp["common"], o)
     if why:
@@ -411,16 +417,32 @@ def oracle_index(impl, idx, sp, o):
             idx2.validate(check_comprehensive_unique=True)
             if not (idx2 == idx) or (idx2 != idx):
                 return "rebuilt index != saved index"
-            w = ih.py_wf(idx2)
-            if w:
-                return "rebuilt index is ill-formed: " + w
-            if not (ih.densify(ih.spec_of(idx2)) == ih.densify(sp)).all():
-                return "rebuilt index has a different dense content"
         except Exception as e:  # noqa
             return "rebuilt index fails validation: %s: %s" % (type(e).__name__, e)
         finally:
             del e2
+        # independent statements of the same (helpers of another vertical: a failure THERE is not a verdict)
+        try:
+            from .. import iindex_hist as ih
+            w = ih.py_wf(idx2)
+            same_dense = bool((ih.densify(ih.spec_of(idx2)) == ih.densify(sp)).all())
+        except Exception as e:  # noqa
+            HELPER_PROBLEMS.append("iindex_hist helper failed: %s: %s" % (type(e).__name__, e))
+            return None
+        if w:
+            return "rebuilt index is ill-formed: " + w
+        if not same_dense:
+            return "rebuilt index has a different dense content"
     return None
+
+
+HELPER_PROBLEMS = []
+
+
+def spec_of(idx):
+    """A real iindex as plain data: entries in dict order, common, shape."""
+    return {"entries": [[[int(c) for c in k], [int(r) for r in v.tolist()]] for k, v in dict.items(idx)],
+            "common": int(idx.common), "shape": [int(x) for x in idx.shape]}
 
 
 def lit_index(sp):
@@ -430,9 +452,8 @@ def lit_index(sp):
 
 def run_index_stream(ctx, impl, n_from_array, n_hist):
     """Real iindex objects: from_array and history-reached states.  Returns (literals, failures, records, distribution)."""
-    from .. import iindex_hist as ih
     lits, bad, recs, dist = [], [], [], {}
-    todo = [("iindex.from_array", idx, ih.spec_of(idx)) for idx in reachable_indexes(impl, ctx.rng, n_from_array)]
+    todo = [("iindex.from_array", idx, spec_of(idx)) for idx in reachable_indexes(impl, ctx.rng, n_from_array)]
     todo = [t for t in todo if t[2]["common"] >= 0 and all(k[0] >= 0 for k, _ in t[2]["entries"])]
     todo += history_indexes(ctx, impl, n_hist)
     for via, idx, sp in todo:
@@ -474,6 +495,9 @@ def run(ctx):
     ctx.coverage["input_distribution"] = dict(sorted(dist.items()))
     ctx.coverage["index_stream_distribution"] = dict(sorted(idist.items()))
     ctx.coverage["real_indexes_round_tripped"] = len(ilits)
+    if HELPER_PROBLEMS:
+        ctx.notes.extend(sorted(set(HELPER_PROBLEMS))[:5])
+        ctx.coverage["history_stream_problems"] = sorted(set(HELPER_PROBLEMS))[:5]
     quick = ctx.tier == "quick"
     res = core.run_cases("c10", PRELUDE, lits, "entries_t * Z * list Z * obs", "chk_c10", "explain_c10", shard_size=100 if quick else 1300)
     ires = core.run_cases("c10i", "From Catii Require Import IIndex.Model Indx.Rebuild.\n" + PRELUDE, ilits, "iindex * list Z * obs", "chk_c10_idx", "explain_c10_idx",
